@@ -170,8 +170,25 @@ def run_scenarios(w):
     def poll_cb():
         polled.append(threading.get_ident())
         return 1
+    # the batched Kafka source over the in-memory client: the completion callback of a batch (the offset commit) is a callback
+    # of the source like any other -- its thread is recorded where the client's commit() is called
+    import fake_ck
+    sys.modules["confluent_kafka"] = fake_ck
+    _commit = fake_ck.Consumer.commit
+
+    def commit(self, *a, **k):
+        polled.append(threading.get_ident())
+        return _commit(self, *a, **k)
+    fake_ck.Consumer.commit = commit
+
+    def kafka(kw):
+        fake_ck.BROKER.reset()
+        fake_ck.BROKER.create("t", 1)
+        fake_ck.BROKER.produce("t", 0, b"m0")
+        return Stream.from_kafka_batched("t", {"bootstrap.servers": "x", "group.id": "g", "auto.offset.reset": "earliest"}, poll_interval=0.01, npartitions=1, **kw)
     kinds = {"from_iterable": lambda kw: Stream.from_iterable([1, 2], **kw),
-             "from_periodic": lambda kw: Stream.from_periodic(poll_cb, 0.01, **kw)}
+             "from_periodic": lambda kw: Stream.from_periodic(poll_cb, 0.01, **kw),
+             "from_kafka_batched": kafka}
     for cls, ctor in kinds.items():
         for la, aa in ((1, 0), (1, 1), (0, 0), (0, 2)):
             for frm in (0, 1, 5):
@@ -195,11 +212,17 @@ def run_scenarios(w):
                     sink_threads.append(threading.get_ident())
                     ran.set()
                 sink = src.sink(rec)
+                chain = [src]
+                if cls == "from_kafka_batched":
+                    # (the factory hands back the node behind the polling source: source -> starmap(get_message_batch))
+                    chain = [src.upstreams[0], src]
                 ev = [{"ups": [], "la": la, "aa": aa, "ens": True, "cls": cls, "raised": False,
-                       "loop": [w.loop_id(src.loop)], "mode": [MODE_ID[src.asynchronous]], "bgNew": False},
-                      {"ups": [1], "la": 0, "aa": 0, "ens": False, "cls": "sink", "raised": False,
-                       "loop": [w.loop_id(src.loop), w.loop_id(sink.loop)],
-                       "mode": [MODE_ID[src.asynchronous], MODE_ID[sink.asynchronous]], "bgNew": False}]
+                       "loop": [w.loop_id(chain[0].loop)], "mode": [MODE_ID[chain[0].asynchronous]], "bgNew": False}]
+                for j, nd_ in enumerate(chain[1:] + [sink], start=1):
+                    upto = (chain + [sink])[:j + 1]
+                    ev.append({"ups": [j], "la": 0, "aa": 0, "ens": False, "cls": "sink" if nd_ is sink else "Stream", "raised": False,
+                               "loop": [w.loop_id(n_.loop) for n_ in upto],
+                               "mode": [MODE_ID[n_.asynchronous] for n_ in upto], "bgNew": False})
                 ev[0]["bgNew"] = bool(w.bg_calls > c0)        # (per trace: the specification starts every trace without a background loop)
                 if frm == 0:
                     src.start()
@@ -208,6 +231,12 @@ def run_scenarios(w):
                 else:
                     call_on(w.L2, src.start)
                 ran.wait(3)
+                if cls == "from_kafka_batched":
+                    # (the commit follows the delivery by one loop callback)
+                    t_end = _time.time() + 3
+                    while not polled and _time.time() < t_end:
+                        _time.sleep(0.005)
+                c1 = w.bg_calls
                 on = 0
                 if seen:
                     on = w.loop_id(seen[0])
@@ -216,9 +245,15 @@ def run_scenarios(w):
                     # every callback of the source -- the polling function included -- runs on that loop's thread
                     if any(t != sink_threads[0] for t in polled):
                         on = 9
+                    # ... and running it asks for no other loop (a pipeline that has a loop of its own never starts the
+                    # background loop later on)
+                    if cls == "from_kafka_batched" and la and c1 > c0 + (1 if ev[0]["bgNew"] else 0):
+                        on = 9
+                    if cls == "from_kafka_batched" and not polled:
+                        on = 9              # the batch was never reported as done
                 ev.append({"run": 1, "from": frm, "on": on})
                 try:
-                    call_on(src.loop, src.stop)
+                    call_on(src.loop, chain[0].stop)
                 except Exception:
                     pass
                 out.append(ev)
